@@ -217,6 +217,7 @@ type run struct {
 	plug     *mocks.Plugin
 	mgr      *mocks.Manager
 	ts       *mocks.TrustStore
+	env      []byte
 }
 
 var desc = kit.Artifact("c02")
@@ -378,7 +379,7 @@ func realise(s *Scen) (*run, error) {
 		rev.Calls, plug.VerifyCalls, plug.MetaCalls, mgr.Gets, ts.Calls = nil, nil, 0, nil, nil
 	}
 	out, verr := v.Verify(context.Background(), desc, env, notation.VerifierVerifyOptions{ArtifactReference: kit.Reference(desc), SignatureMediaType: s.Format})
-	return &run{accepted: verr == nil, err: verr, out: out, rev: rev, plug: plug, mgr: mgr, ts: ts}, nil
+	return &run{accepted: verr == nil, err: verr, out: out, rev: rev, plug: plug, mgr: mgr, ts: ts, env: env}, nil
 }
 
 type notationPlugin = pf.Plugin
@@ -405,6 +406,12 @@ func check(s *Scen) (string, string, *run, verdict) {
 	}
 	// integrity must have passed (precondition of the statement); otherwise the harness is broken
 	if len(r.out.VerificationResults) == 0 || r.out.VerificationResults[0].Type != "integrity" || r.out.VerificationResults[0].Error != nil {
+		// the statement speaks of signatures that pass integrity: when the harness's own verifier
+		// confirms that the envelope is intact, a failed (or missing) integrity result is the
+		// library's doing - e.g. another validation's failure booked on the integrity result
+		if _, ierr := envb.IndependentVerify(s.Format, r.env); ierr == nil {
+			return "C02:results:integrity-failed-for-intact-envelope", fmt.Sprintf("the envelope is intact (own verifier), yet the outcome's first result is not a passed integrity validation: %v", r.err), r, want
+		}
 		return "harness", fmt.Sprintf("harness: envelope did not pass integrity: %v", r.err), r, want
 	}
 	if want.accept != r.accepted {
